@@ -502,3 +502,70 @@ def part_context(chk, F, G, rid="R-PARTCTX"):
         raise AnalysisBroken("only %d current-pointer dereferences reachable from part parses" % n)
     if not bad:
         chk.ob(rid, "all-parts", True, "", "src/DocumentBuilder.cpp")
+
+
+# ---------------------------------------------------------------------------------------------- R-DOTID
+def run_dotid(chk, F, G_, rid="R-DOTID"):
+    """The lexer decides between T_ID and T_TYPENAME by resolving the name in the scope the parser is in (is_type on
+    frames.top()).  For the name after `.` that is the wrong scope - the member is looked up in the template / record of the
+    left operand - so the production must take the name whichever way the lexer classified it (found by a defect-hunt
+    sub-agent: with a global `typedef .. t;` the query `E<> P.t == 1` for the variable t of P's template was a syntax
+    error, E07-1)."""
+    chk.rule(rid, "every production `X '.' <name>` whose action looks the name up in the left operand (expr_dot) takes a "
+                  "nonterminal that derives both T_ID and T_TYPENAME: the token class of a member name comes from the "
+                  "enclosing scope, to which the member does not belong")
+
+    def derives(sym, seen=None):
+        seen = seen if seen is not None else set()
+        if sym in seen:
+            return set()
+        seen.add(sym)
+        if sym not in G_.by_lhs:
+            return {sym}
+        out = set()
+        for r in G_.by_lhs[sym]:
+            if len(r.rhs) == 1:
+                out |= derives(r.rhs[0], seen)
+        return out
+    n = 0
+    for rl in G_.by_lhs.values():
+        for r in rl:
+            rhs = [str(x) for x in r.rhs]
+            for i, s in enumerate(rhs[:-1]):
+                if s == "'.'" and any(c.name == "expr_dot" for c in (r.calls or [])):
+                    n += 1
+                    d = derives(rhs[i + 1])
+                    chk.ob(rid, "%s -> %s" % (r.lhs, " ".join(rhs)), {"T_ID", "T_TYPENAME"} <= d,
+                           "the member name in `%s -> %s` (parser.y:%s) derives %s only: a member whose name is a type name "
+                           "in the scope of the use (`typedef int t;` globally, `int t;` in the template of P) cannot be "
+                           "written as P.t - the lexer hands out T_TYPENAME" %
+                           (r.lhs, " ".join(rhs), r.line, sorted(x for x in d if x.startswith("T_"))),
+                           "src/parser.y:%s" % r.line)
+    if n < 1:
+        raise AnalysisBroken("R-DOTID: no production with '.' and expr_dot found")
+
+
+# ---------------------------------------------------------------------------------------------- R-MEMBERSCOPE
+def run_memberscope(chk, F, rid="R-MEMBERSCOPE"):
+    """`P.x` / `p.x` / `s.x`: x is a declaration of P's template (p's template, s's record type) - never a declaration
+    that merely is visible from there.  frame_t::resolve walks up the parent chain, and the parent of a template frame is the
+    global frame, so a member lookup through resolve finds every global name (E07-3: `forall (p : A) (p.g > 0)` bound g
+    to the global variable g although A declares none)."""
+    chk.rule(rid, "ExpressionBuilder::expr_dot looks the member name up in the left operand's own type or frame "
+                  "(find_index_of / get_index_of), never with resolve(), which continues in the enclosing scopes")
+    fn = F.resolve_method("UTAP::ExpressionBuilder", "expr_dot")
+    if fn is None or fn.get("body") is None:
+        raise AnalysisBroken("ExpressionBuilder::expr_dot not found")
+    idp = fn["params"][0]["name"]
+    own = [c for c in calls(fn["body"]) if c.get("name") in ("find_index_of", "get_index_of") and
+           any(x.get("k") == "ref" and x.get("name") == idp for x in walk(c.get("args", [])))]
+    if len(own) < 2:
+        raise AnalysisBroken("expr_dot: member lookups not found (%d)" % len(own))
+    wide = [c for c in calls(fn["body"]) if c.get("name") == "resolve" and
+            any(x.get("k") == "ref" and x.get("name") == idp for x in walk(c.get("args", [])))]
+    chk.ob(rid, "expr_dot|member lookup", not wide,
+           "ExpressionBuilder::expr_dot looks the member `%s` up with resolve() (line %s): after the frame of the template it "
+           "continues in the global frame, so every global name is accepted as a member of a dynamic process (`p.g` binds to "
+           "the global g; the static form P.g is rejected with $has_no_member_named)" %
+           (idp, wide[0].get("l") if wide else "?"), "%s:%s" % (fn["file"], wide[0].get("l") if wide else fn["line"]),
+           sample="expr_dot: %d lookups in the operand's own type / frame, none through resolve()" % len(own))
